@@ -882,7 +882,9 @@ func (runInfo *runInfoStruct) invokeChanExpr(expr *ast.ChanExpr) {
 		runInfo.err = newStringError(expr, "cannot use type "+rhs.Type().String()+" as type "+lhs.Type().Elem().String()+" to send to chan")
 		return
 	}
-	// send rhs to lhs channel
+	// send rhs to lhs channel: the value sent is the value read, also when the send blocks
+	// and the element or field it was read from is assigned in the meantime
+	rhs = heldValue(rhs)
 	cases := []reflect.SelectCase{{
 		Dir:  reflect.SelectRecv,
 		Chan: reflect.ValueOf(runInfo.ctx.Done()),
